@@ -265,7 +265,8 @@ impl<'a, 'bases, R: Reader> EhHdrTableIter<'a, 'bases, R> {
         let row_size = size * 2;
         let n = u64::try_from(n).map_err(|_| Error::UnsupportedOffset)?;
         self.remain = self.remain.saturating_sub(n);
-        self.table.skip(R::Offset::from_u64(n * row_size)?)?;
+        let skip_len = n.checked_mul(row_size).ok_or(Error::UnsupportedOffset)?;
+        self.table.skip(R::Offset::from_u64(skip_len)?)?;
         self.next()
     }
 }
@@ -360,7 +361,10 @@ impl<'a, R: Reader + 'a> EhHdrTable<'a, R> {
         };
 
         while len > 1 {
-            let head = reader.split(R::Offset::from_u64((len / 2) * row_size)?)?;
+            let head_len = (len / 2)
+                .checked_mul(row_size)
+                .ok_or_else(|| Error::UnexpectedEof(reader.offset_id()))?;
+            let head = reader.split(R::Offset::from_u64(head_len)?)?;
             let tail = reader.clone();
 
             let pivot =
